@@ -451,5 +451,6 @@ int main(int argc, char **argv)
   c15::register_binary();
   c15::register_text();
   c15::register_conv();
+  c15::register_locale();
   return vrt::run(argc, argv);
 }
